@@ -26,14 +26,14 @@ func (u *Unit) strConcat(a, b Term) Term {
 }
 
 func (u *Unit) strSub(s, lo, hi Term) Term {
-	u.eng.useSpecFunc("shift8")
+	u.useSpec("shift8")
 	return u.define("substr", Term{fmt.Sprintf("(mk-str (shift8 (str-arr %s) %s) %s)", s.S, lo.S, sub(hi, lo).S), sStr})
 }
 
 func (u *Unit) sliceToStr(st *State, s Term) Term {
 	hn, hs, _ := u.elemHeapName(types.Typ[types.Uint8])
 	h := u.heap(st, hn, hs)
-	u.eng.useSpecFunc("shift8")
+	u.useSpec("shift8")
 	return u.define("str", Term{fmt.Sprintf("(mk-str (shift8 (select %s (s-ref %s)) (s-off %s)) (s-len %s))", h.S, s.S, s.S, s.S), sStr})
 }
 
